@@ -52,3 +52,7 @@ void h_gridDiskUnsafe(void) { H3Index origin = nondet_u64(); int k = nondet_int(
 /* bounded stand-in: origin resolution fixed (digit loops then have LRES iterations) */
 void h_localIjkToCell_res(void) { H3Index origin = S_SETRES(nondet_u64(), LRES); const CoordIJK *ijk; H3Index *out; H3Error e = localIjkToCell(origin, ijk, out); __CPROVER_assert(0, "canary localIjkToCell res"); }
 #endif
+
+void h_h3ToFaceIjk(void) { H3Index h = nondet_u64(); FaceIJK *fijk; H3Error e = _h3ToFaceIjk(h, fijk); __CPROVER_assert(0, "canary _h3ToFaceIjk"); }
+void h_cellToLatLng(void) { H3Index h = nondet_u64(); LatLng *g; H3Error e = cellToLatLng(h, g); __CPROVER_assert(0, "canary cellToLatLng"); }
+void h_cellToBoundary(void) { H3Index h = nondet_u64(); CellBoundary *cb; H3Error e = cellToBoundary(h, cb); __CPROVER_assert(0, "canary cellToBoundary"); }
